@@ -156,12 +156,17 @@ theorem P_of (x : Node) (hE : EbStmt cfg sh pc x) (hC : chainable x = true → C
 
 /-! ### member access, index, slices -/
 
-theorem binOp_rbr (l : Loc) : binOp cfg (tok .bracket "]" l) = none := binOp_bracket cfg "]" l
+def lbr (l : Loc) : Token := tok .bracket "[" l
+def rbr : Token := tok .bracket "]"
 
-theorem followTok_rbr : FollowTok (tok .bracket "]") := by simp [FollowTok, tok]
+theorem binOp_rbr : binOp cfg rbr = none := binOp_bracket cfg "]" {}
 
-theorem stops_rbr (p : Nat) : Stops cfg p (tok .bracket "]") :=
-  stops_of_none cfg (binOp_rbr cfg {}) (by simp [tok, Token.is]) p
+theorem followTok_rbr : FollowTok rbr := by simp [FollowTok, rbr, tok]
+
+theorem rbr_not_quest : rbr.is .operator "?" = false := by simp [rbr, tok, Token.is]
+
+theorem stops_rbr (p : Nat) : Stops cfg p rbr :=
+  stops_of_none cfg (binOp_rbr cfg) rbr_not_quest p
 
 theorem parsePostfix_prop {link name tk : Token} (hk : link.kind = .operator)
     (hv : link.value = "." ∨ link.value = "?.") (hn : name.kind = .identifier)
@@ -202,5 +207,142 @@ theorem C_prop (mt : Meta) (x : Node) (name : String) (s : Bool) (ihx : PStmt cf
     · simp [tok]
   rw [hst]
   simpa [tok, chainSt, mk_of_inv hc.1] using hp
+
+
+theorem headOK_not_colon {R : List Token} (h : HeadOK R) : (cur R).is .operator ":" = false := by
+  obtain ⟨t0, rest, rfl, h0⟩ := h; exact h0.1
+theorem headOK_not_rbr {R : List Token} (h : HeadOK R) : (cur R).is .bracket "]" = false := by
+  obtain ⟨t0, rest, rfl, h0⟩ := h; exact h0.2.2.2.1
+theorem headOK_ne_nil {R : List Token} (h : HeadOK R) : R ≠ [] := by
+  obtain ⟨t0, rest, rfl, _⟩ := h; simp
+
+theorem expect_rbr (t2 : Token) (tl : List Token) :
+    expect .bracket "]" (rbr :: t2 :: tl) = .ok () (t2 :: tl) := by
+  simp [expect, rbr, tok, Token.is, next]
+
+/-- `x[` followed by an expression -/
+theorem parsePostfix_lbr_expr {R : List Token} (hR : HeadOK R) (l : Loc) (f d : Nat) (x : Node) (st : Bool) :
+    parsePostfix cfg (f+1) d x st (lbr l :: R) =
+      (parseExpression cfg f d 0 R).bind fun fr ts2 =>
+        if (cur ts2).is .operator ":" then
+          (next ts2).bind fun _ ts3 =>
+          (if (cur ts3).is .bracket "]" then .ok none ts3
+           else (parseExpression cfg f d 0 ts3).bind fun e ts4 => .ok (some e) ts4).bind fun to ts4 =>
+          (expect .bracket "]" ts4).bind fun _ ts5 =>
+          parsePostfix cfg f d (.slice (mk l) x (some fr) to) st ts5
+        else
+          (expect .bracket "]" ts2).bind fun _ ts3 =>
+          parsePostfix cfg f d (.index (mk l) x fr) st ts3 := by
+  rw [parsePostfix]
+  simp [lbr, tok, next_cons_of_ne _ _ (headOK_ne_nil hR), headOK_not_colon hR]
+
+/-- `x[:` -/
+theorem parsePostfix_lbr_colon {R : List Token} (hR : R ≠ []) (l : Loc) (f d : Nat) (x : Node) (st : Bool) :
+    parsePostfix cfg (f+1) d x st (lbr l :: colon :: R) =
+      ((if (cur R).is .bracket "]" then .ok none R
+        else (parseExpression cfg f d 0 R).bind fun e ts4 => .ok (some e) ts4).bind fun to ts4 =>
+       (expect .bracket "]" ts4).bind fun _ ts5 =>
+       parsePostfix cfg f d (.slice (mk l) x none to) st ts5) := by
+  rw [parsePostfix]
+  have hn : next (colon :: R) = .ok () R := next_cons_of_ne _ _ hR
+  have hn1 : next (lbr l :: colon :: R) = .ok () (colon :: R) := rfl
+  have hc : colon.is .operator ":" = true := by simp [colon, tok, Token.is]
+  have hk : ((lbr l).kind == TokKind.operator || (lbr l).kind == TokKind.bracket) = true := by simp [lbr, tok]
+  have hv1 : ((lbr l).value == "." || (lbr l).value == "?.") = false := by simp [lbr, tok]
+  have hv2 : ((lbr l).value == "[") = true := by simp [lbr, tok]
+  have hl : (lbr l).loc = l := rfl
+  simp only [cur_cons, hk, hv1, hv2, hn, hn1, hc, hl, if_true, Bool.false_eq_true, if_false, Res.bind_ok]
+
+theorem followTok_lbr (l : Loc) : (lbr l).is .bracket "(" = false := by simp [lbr, tok, Token.is]
+
+theorem E_closed {t : Node} (ih : EStmt cfg sh pc t) {d : Nat} (hc : canon cfg d t = true) (π : List Nat)
+    {close : Token} (hf : FollowTok close) (hb : binOp cfg close = none) (hq : close.is .operator "?" = false)
+    (tl : List Token) :
+    Conv (fun f => parseExpression cfg f d 0 (pr cfg sh pc π 0 close t ++ close :: tl)) (.ok t (close :: tl)) :=
+  ih π 0 0 close tl d _ hc (Nat.le_refl _) hf (inv_of_none cfg hb 0)
+    (conv_cont_stop cfg (stops_of_none cfg hb hq 0) d t tl)
+
+theorem optP_some (π : List Nat) (i : Nat) (close : Token) (e : Node) :
+    optP cfg sh pc π i close (some e) = pr cfg sh pc (i :: π) 0 close e := by
+  simp [optP, pr]
+
+theorem C_index (hy : TbOK cfg.tb) (mt : Meta) (x i : Node) (ihx : PStmt cfg sh pc x) (ihi : EStmt cfg sh pc i) :
+    CStmt cfg sh pc (.index mt x i) := by
+  intro π tk tl d res hc htk _ hp
+  simp only [canonBaseWith, canon, Bool.and_eq_true] at hc
+  have hcb : canonBaseWith (canon cfg d x) false x = true := hc.1.2
+  have hbody : body cfg sh pc π 0 rparen (.index mt x i) ++ tk :: tl =
+      prBase cfg sh pc (0 :: π) false false x ++
+        lbr mt.loc :: (pr cfg sh pc (1 :: π) 0 rbr i ++ rbr :: tk :: tl) := by
+    simp [body, prBase, pr, lbr, rbr]
+  rw [hbody]
+  refine ihx (0 :: π) false false _ _ d res (by simpa using hcb) (followTok_lbr _)
+    (by simp [lbr, tok]) ?_
+  apply Conv.of_succ
+  refine Conv.congr (fun f => parsePostfix_lbr_expr cfg ((headOK_pr cfg sh pc hy hc.2 _ _ _).append _)
+    mt.loc f d x _) ?_
+  refine Conv.bind (E_closed cfg sh pc ihi hc.2 (1 :: π) followTok_rbr (binOp_rbr cfg)
+    rbr_not_quest (tk :: tl)) ?_
+  have h1 : (cur (rbr :: tk :: tl)).is .operator ":" = false := by simp [rbr, tok, Token.is]
+  simp only [h1, Bool.false_eq_true, if_false, expect_rbr, Res.bind_ok]
+  rw [baseSt_nonmember]
+  simpa [chainSt, mk_of_inv hc.1.1] using hp
+
+theorem C_slice (hy : TbOK cfg.tb) (mt : Meta) (x : Node) (fr to : Option Node) (ihx : PStmt cfg sh pc x)
+    (ihf : ∀ e, fr = some e → EStmt cfg sh pc e) (iht : ∀ e, to = some e → EStmt cfg sh pc e) :
+    CStmt cfg sh pc (.slice mt x fr to) := by
+  intro π tk tl d res hc htk _ hp
+  simp only [canonBaseWith, canon, Bool.and_eq_true] at hc
+  have hcb : canonBaseWith (canon cfg d x) false x = true := hc.1.1.2
+  have hbody : body cfg sh pc π 0 rparen (.slice mt x fr to) ++ tk :: tl =
+      prBase cfg sh pc (0 :: π) false false x ++
+        lbr mt.loc :: (optP cfg sh pc π 1 colon fr ++ colon :: (optP cfg sh pc π 2 rbr to ++ rbr :: tk :: tl)) := by
+    simp [body, prBase, lbr, rbr]
+  rw [hbody]
+  refine ihx (0 :: π) false false _ _ d res (by simpa using hcb) (followTok_lbr _)
+    (by simp [lbr, tok]) ?_
+  rw [baseSt_nonmember]
+  have hp' : Conv (fun f => parsePostfix cfg f d (.slice (mk mt.loc) x fr to)
+      (pc (0 :: π) == 0 && chainSt pc (0 :: π) x) (tk :: tl)) res := by
+    simpa [chainSt, mk_of_inv hc.1.1.1] using hp
+  -- the upper bound and the closing bracket, common to both shapes
+  have hto : ∀ (K : Nat → Option Node → List Token → Res Node),
+      Conv (fun f => K f to (tk :: tl)) res →
+      Conv (fun f => ((if (cur (optP cfg sh pc π 2 rbr to ++ rbr :: tk :: tl)).is .bracket "]" then
+          Res.ok none (optP cfg sh pc π 2 rbr to ++ rbr :: tk :: tl)
+        else (parseExpression cfg f d 0 (optP cfg sh pc π 2 rbr to ++ rbr :: tk :: tl)).bind
+          fun e ts4 => .ok (some e) ts4).bind fun to' ts4 =>
+        (expect .bracket "]" ts4).bind fun _ ts5 => K f to' ts5)) res := by
+    intro K hK
+    cases to with
+    | none =>
+      have h1 : rbr.is .bracket "]" = true := by simp [rbr, tok, Token.is]
+      simpa [optP, h1, expect_rbr] using hK
+    | some e =>
+      have hce : canon cfg d e = true := by simpa [canonOpt] using hc.2
+      have hH := (headOK_pr cfg sh pc hy hce (2 :: π) 0 rbr).append (rbr :: tk :: tl)
+      rw [optP_some]
+      simp only [headOK_not_rbr hH, Bool.false_eq_true, if_false]
+      refine Conv.bind (a := some e) (ts := rbr :: tk :: tl) ?_ (by simpa [expect_rbr] using hK)
+      exact Conv.bind (K := fun _ e ts4 => .ok (some e) ts4) (E_closed cfg sh pc (iht e rfl) hce (2 :: π) followTok_rbr (binOp_rbr cfg)
+        rbr_not_quest (tk :: tl)) (Conv.const _)
+  cases fr with
+  | none =>
+    simp only [optP, List.nil_append]
+    apply Conv.of_succ
+    refine Conv.congr (fun f => parsePostfix_lbr_colon cfg (by simp) mt.loc f d x _) ?_
+    exact hto (fun f to' ts => parsePostfix cfg f d (.slice (mk mt.loc) x none to') _ ts) hp'
+  | some e =>
+    have hce : canon cfg d e = true := by simpa [canonOpt] using hc.1.2
+    rw [optP_some]
+    apply Conv.of_succ
+    refine Conv.congr (fun f => parsePostfix_lbr_expr cfg ((headOK_pr cfg sh pc hy hce _ _ _).append _)
+      mt.loc f d x _) ?_
+    refine Conv.bind (E_closed cfg sh pc (ihf e rfl) hce (1 :: π) followTok_colon (binOp_colon cfg hy)
+      (by simp [colon, tok, Token.is]) _) ?_
+    have h1 : (cur (colon :: (optP cfg sh pc π 2 rbr to ++ rbr :: tk :: tl))).is .operator ":" = true := by
+      simp [colon, tok, Token.is]
+    simp only [h1, if_true, next_cons_append, Res.bind_ok]
+    exact hto (fun f to' ts => parsePostfix cfg f d (.slice (mk mt.loc) x (some e) to') _ ts) hp'
 
 end ExprModel.Parser
